@@ -69,6 +69,21 @@ def translate():
                     if fn.name == "_initialize_fresh" and cls == "ConfigRandomState":
                         fresh_seeds = True
                     sites.append((f"{rel}:{node.lineno}:{fn.name}", cls, on_path, guarded))
+    # package-internal calls that hand a seed to a routine which seeds the GLOBAL stream with it
+    seeding_funcs = {w.split(":")[-1] for (w, cls, on, g) in sites if cls == "CallerArgument"}
+    n_forward = 0
+    for p, tree in trees.items():
+        rel = p.relative_to(REPO)
+        for node in ast.walk(tree):
+            if isinstance(node, ast.Call) and _ns(node.func).split(".")[-1] in seeding_funcs:
+                vals = [kw.value for kw in node.keywords if kw.arg == "random_state"]
+                if len(node.args) >= 3:
+                    vals.append(node.args[2])
+                for v in vals:
+                    if not (isinstance(v, ast.Constant) and v.value is None):
+                        n_forward += 1
+                        sites.append((f"{rel}:{node.lineno}:forwards {_ns(v)} to {_ns(node.func)}",
+                                      "Literal 0" if isinstance(v, ast.Constant) else "AttributeSetFromLiteral 0", True, False))
     # calls that create private generators are fine; calls to np.random.default_rng / RandomState with literals are private
     lines = "\n".join(
         f"  mkSite {i} ({cls}) {str(on).lower()} {str(g).lower()} (* {w} *)" + (";" if i < len(sites) - 1 else "")
@@ -82,6 +97,7 @@ Definition seed_sites : list seed_site := [
 {lines}
 ].
 Definition fresh_init_seeds_with_config_random_state : bool := {str(fresh_seeds).lower()}.
+Definition seeds_forwarded_to_global_seeding_routines : nat := {n_forward}.
 """
     write_if_changed(COQ / "Gen" / "Seeding.v", text)
     return sites
@@ -116,7 +132,24 @@ def run_once(random_state, pre_seed, cfg):
     digest = (tuple(np.concatenate([np.ravel(a) for a in h._history["u"]]).tobytes() for _ in [0]),
               tuple(float(b) for b in h.get_history("beta")), float(s.evidence()[0]))
     x, w, l = s.posterior()
-    return digest, (x.tobytes(), w.tobytes()), calls, float(np.random.rand())
+    after_run = float(np.random.rand())
+    # library operations after the run must not reset the stream either
+    probes = {}
+    for name, op in (("posterior(resample=True)", lambda: s.posterior(resample=True)),
+                     ("posterior()", lambda: s.posterior()), ("results()", lambda: s.results()),
+                     ("evidence()", lambda: s.evidence())):
+        nxt = []
+        for pre in (31, 32):
+            np.random.seed(pre)
+            n0 = len(calls)
+            np.random.seed = rec
+            try:
+                op()
+            finally:
+                np.random.seed = orig
+            nxt.append((float(np.random.rand()), calls[n0:]))
+        probes[name] = nxt
+    return digest, (x.tobytes(), w.tobytes()), calls, after_run, probes
 
 
 def sweep(run, tier, rng):
@@ -124,7 +157,7 @@ def sweep(run, tier, rng):
     if tier != "quick":
         cfgs += [dict(clustering=False, sample="rwm"), dict(clustering=True, cluster_every=2), dict(clustering=False, resample="syst", volume_variation=0.5)]
     for ci, cfg in enumerate(cfgs):
-        rs = rng.randrange(1000)
+        rs = 0 if ci == 0 else rng.randrange(1000)
         what = dict(cfg=cfg, random_state=rs)
         try:
             a = run_once(rs, 111, cfg)
@@ -137,10 +170,16 @@ def sweep(run, tier, rng):
         run.count(f"cfg={sorted(cfg.items())}")
         if a[0] != b[0] or a[1] != b[1]:
             run.fail("seeded-run-not-reproducible", f"two runs with random_state={rs} differ (evidence {a[0][2]!r} vs {b[0][2]!r})", **what)
+        for name, nxt in a[4].items():
+            if nxt[0][1] or nxt[1][1]:
+                run.fail("library-reseeds-global-stream", f"{name} called np.random.seed with {nxt[0][1] or nxt[1][1]}", **what)
+            elif nxt[0][0] == nxt[1][0]:
+                run.fail("stream-after-operation-independent-of-prior-seed",
+                         f"after {name} the next global draw is the same whatever the seed in force before", **what)
         if a[0] == c[0]:
             run.fail("different-seeds-same-result", f"random_state={rs} and {rs + 1} give identical histories", **what)
         # trace: the only seeding call of a fresh seeded run is seed(random_state)
-        if a[2] != [rs]:
+        if a[2][:1] != [rs] or [v for v in a[2][1:] if True]:
             run.disagree("seeding trace of a fresh seeded run vs model ([SeedUser random_state])", impl=a[2], model=[rs], **what)
             consts = [v for v in a[2] if v != rs]
             if consts:
